@@ -21,6 +21,11 @@ def install(ex):
         S[p + '.verifAssert'] = verif_assert
         S[p + '.verifReach'] = verif_reach
         S[p + '.verifConcretize'] = verif_concretize
+        S[p + '.verifNativeRepeat'] = lambda ex, a, i: 1
+        S[p + '.verifEffectsBegin'] = effects_begin
+        S[p + '.verifEffectsEnd'] = effects_end
+        S[p + '.verifParallel'] = lambda ex, a, i: ex.call_value(a[1], [], i)
+        S[p + '.verifSameState'] = lambda ex, a, i: True
         S[p + '.bOr'] = lambda ex, a, i: bor(a[0], a[1])
         S[p + '.bAnd'] = lambda ex, a, i: band(a[0], a[1])
         S[p + '.bImplies'] = lambda ex, a, i: bor(bnot(a[0]), a[1])
@@ -59,6 +64,36 @@ def nondet_range(ex, a, ins):
     cands = list(range(lo, hi + 1))
     i = ex.choose([v == z3.BitVecVal(c & mask(64), 64) for c in cands])
     return cands[i] & mask(64)
+
+def effects_begin(ex, a, ins):
+    """start the write-effect log: every object (and hash stream) that exists now counts as shared"""
+    ex.effects = []
+    ex.effects_epoch = ex.mem.n
+    ex.mem.writes = []
+    for st in ex.pstate.get('streams', []):
+        st.shared = True
+    return None
+
+def effects_end(ex, a, ins):
+    """number of writes to objects that existed at verifEffectsBegin (stores by Go or C code, and declared
+    effects of stubs); the written objects are listed in the path events"""
+    n = 0
+    seen = set()
+    for (obj, off, k) in (ex.mem.writes or []):
+        if obj.id <= ex.effects_epoch:
+            n += 1
+            key = (obj.label, off)
+            if key not in seen and len(seen) < 6:
+                seen.add(key)
+                ex.events.append(('effect', 'store to %s+%d (%d bytes, %s object)' % (obj.label, off, k, obj.lang)))
+    for (kind, what) in ex.effects or []:
+        n += 1
+        ex.events.append(('effect', '%s: %s' % (kind, what)))
+    ex.mem.writes = None
+    ex.effects = None
+    for st in ex.pstate.get('streams', []):
+        st.shared = False
+    return n
 
 def verif_assume(ex, a, ins):
     c = a[0]
